@@ -197,10 +197,9 @@ func (r *runner) instantiate(s Step) string {
 		if !p.specCompat {
 			return fmt.Sprintf("InstantiateModule(%s as %q) succeeded although an import does not match its export: %s", spec.Name, s.As, p.why)
 		}
-		if st := r.m.postLinkStage(p); st != "ok" {
+		if st := r.m.run(p); st != "ok" {
 			return fmt.Sprintf("InstantiateModule(%s as %q) succeeded although the specification requires it to fail (%s)", spec.Name, s.As, st)
 		}
-		r.m.commit(p, "ok")
 		r.mods[s.As] = mod
 		r.res.labels["inst:accepted"]++
 		if p.aliasMut {
@@ -225,22 +224,21 @@ func (r *runner) instantiate(s Step) string {
 		} else {
 			r.res.labels["inst:rejected-incompatible-import"]++
 		}
-		r.m.commit(p, "link")
+		r.m.reject()
 		return r.afterFailure()
 	}
 	if !p.specCompat {
 		// It did not succeed, so acceptance is not violated, but it got past linking: whatever it
 		// wrote is not in the model and the sweep below will show it.
 		r.res.labels["inst:incompatible-import-failed-later"]++
-		r.m.commit(p, "link")
+		r.m.reject()
 		return r.afterFailure()
 	}
-	want := r.m.postLinkStage(p)
+	want := r.m.run(p)
 	if cls != want {
 		return fmt.Sprintf("InstantiateModule(%s as %q) failed with %q; the model expects outcome %q (imports match; constant expressions evaluated with the current values of the imported globals)",
 			spec.Name, s.As, firstLine(err.Error()), want)
 	}
-	r.m.commit(p, want)
 	r.res.labels["inst:failed-at-"+want]++
 	return r.afterFailure()
 }
